@@ -45,9 +45,9 @@ def g_eq_strategy(topologies=None, with_profiles=True):
         if geom == "tall":
             eq["geom"] = {"rshift": -0.9, "zscale": 2.5}
         elif geom == "far":
-            eq["geom"] = {"rshift": 1.5}
+            eq["geom"] = {"rshift": 1.5, "zshift": -1.5}
         elif geom == "mid":
-            eq["geom"] = {"rshift": -0.5, "zscale": 1.5}
+            eq["geom"] = {"rshift": -0.5, "zscale": 1.5, "zshift": 1.2}
         elif geom == "wide":
             eq["geom"] = {"rmax_extra": draw(st.sampled_from([0.2, 0.4]))}
         n = st.sampled_from([49, 57, 65, 65, 81, 97])
@@ -174,6 +174,15 @@ def g_options_strategy(top, orthogonal=None):
             o["follow_perpendicular_atol"] = draw(st.sampled_from([1e-8, 1e-10, 1e-7]))
         if double and draw(st.integers(0, 3)) == 0:
             o["start_at_upper_outer"] = True
+        if draw(st.integers(0, 4)) == 0:
+            # per-leg target spacing instead of one value for all legs
+            legs_ = ["inner_lower", "outer_lower", "inner_upper", "outer_upper"] if double else (
+                ["inner_upper", "outer_upper"] if top == "usn" else ["inner_lower", "outer_lower"])
+            for leg in legs_:
+                if draw(st.booleans()):
+                    o["target_%s_poloidal_spacing_length" % leg] = _round(draw(st.floats(0.15, 1.0)), 3)
+        if draw(st.integers(0, 5)) == 0:
+            o["cap_Bp_ylow_xpoint"] = True  # documented 'fudge' of Bpxy_ylow next to X-points
         if orth and draw(st.integers(0, 3)) == 0:
             o["curvature_type"] = "curl(b/B) with x-y derivatives"
         if not orth:
@@ -363,7 +372,7 @@ def coarse_label(desc):
         if top == "cdn" and desc["eq"].get("delta"):
             top = "cdn~"  # nearly connected: two X-points at slightly different psi
         gm = desc["eq"].get("geom") or {}
-        if 0.7 * gm.get("zscale", 1.0) > 2.0 + gm.get("rmax_extra", 0.0) + gm.get("rshift", 0.0):
+        if 0.7 * gm.get("zscale", 1.0) + gm.get("zshift", 0.0) > 2.0 + gm.get("rmax_extra", 0.0) + gm.get("rshift", 0.0):
             top = "tall"  # part of the grid at Z > max(R)
         elif desc["eq"].get("wall", {}).get("kind") == "baffle":
             top = "baffle"  # non-convex wall
